@@ -4,7 +4,7 @@
    correspondence run) and the documented effects; the theorems say they coincide for ALL lists. *)
 From Coq Require Import List Arith Bool.
 From BS Require Import Base.Sexp Model.Heap Model.Edit Spec.Tree Spec.ListEdit
-  Proofs.HeapBasics Proofs.ExtractRep Proofs.InsertRep Proofs.ListEditProofs.
+  Proofs.HeapBasics Proofs.ExtractRep Proofs.InsertRep Proofs.ListEditProofs Proofs.EditBase Proofs.EditRep Model.EditOps.
 Import ListNotations.
 
 (* a successful _insert of a parentless child puts it at the requested (clipped) index *)
@@ -69,3 +69,27 @@ Theorem C02_insert_effect : forall F Tp bp Tc h self position fuel h',
   rep ((insert_sub self pos Tc Tp, bp || (Nat.eqb self (rid Tp) && Nat.eqb pos 0)) :: F) h'.
 Proof. exact insert1_rep. Qed.
 Print Assumptions C02_insert_effect.
+
+(* the general _insert: the new child may currently sit anywhere in the forest (same parent - with the
+   code's index adjustment and its no-op branch -, another parent, another tree, or be a root), as
+   long as it is not the destination or one of its ancestors: either nothing changes (it already is
+   at that index), or the heap represents the forest in which exactly its subtree was taken out of
+   where it was and put in as child number eff_pos of the destination - nothing else moves *)
+Theorem C02_insert_move_effect : forall F h self position nc fuel h',
+  rep F h -> In self (fids F) -> In nc (fids F) -> is_tag h self = true ->
+  ~ anc h nc self -> unlinked_ok F nc -> length (fids F) <= fuel ->
+  insert1 fuel h self position nc = Some h' ->
+  let pos := Nat.min position (length (kids (h self))) in
+  (h' = h /\ par (h nc) = Some self /\ index_of nc (kids (h self)) = Some pos) \/
+  (exists F', rep F' h' /\ moved F F' self nc (eff_pos h self nc pos)).
+Proof. exact insert1_move_rep. Qed.
+Print Assumptions C02_insert_move_effect.
+
+(* no call gets stuck: every admissible call other than insert_after returns, in a consistent state;
+   insert_after returns when no argument is repeated or a BeautifulSoup object (else the code itself
+   raises ValueError from parent.index(anchor)) *)
+Theorem C02_calls_total : forall s o, consistent s -> wf_op_b s o = true ->
+  (forall self args, o = OInsertAfter self args -> simple_args_b s args = true) ->
+  exists s', apply_op s o = Ok s' /\ consistent s'.
+Proof. exact op_total_b. Qed.
+Print Assumptions C02_calls_total.
